@@ -43,6 +43,9 @@ type Scenario struct {
 	// SeqBases: when set, a driver choice picks the sequence number at which the harness-made
 	// connections of this execution start
 	SeqBases []uint64
+	// MapRaces: vector clocks + reported map accesses: unsynchronised concurrent map access is a violation
+	// (key fatal/concurrent-map-access/<function>); see shim/vsync/race.go
+	MapRaces bool
 	// MapOrder: the iteration order of every instrumented map range is an environment choice
 	// (rotations of the canonical order; counted by the fault bound)
 	MapOrder bool
@@ -51,6 +54,9 @@ type Scenario struct {
 var scenarios []*Scenario
 
 func register(s *Scenario) { scenarios = append(scenarios, s) }
+
+// forceMapRaces (development knob, inherited by the workers): run every scenario with the map-race detector.
+var forceMapRaces = os.Getenv("VERIF_FORCE_MAPRACES") != ""
 
 // forceUnlock (development knob, inherited by the workers): run every scenario with a scheduling
 // point after each lock release.
@@ -148,7 +154,7 @@ func shortFunc(f string) string {
 // runOne executes the scenario once along prefix.
 func runOne(sc *Scenario, prefix []int, trace bool) *ExecReport {
 	x := &X{}
-	cfg := vs.Config{Prefix: prefix, MaxSteps: sc.MaxSteps, Trace: trace, AtomicPoints: sc.Atomic, NoPoison: sc.NoPoison, NoStalls: sc.NoStalls, UnlockedWrites: sc.UnlockedWrites, UnlockPoints: sc.UnlockPoints || forceUnlock}
+	cfg := vs.Config{Prefix: prefix, MaxSteps: sc.MaxSteps, Trace: trace, AtomicPoints: sc.Atomic, NoPoison: sc.NoPoison, NoStalls: sc.NoStalls, UnlockedWrites: sc.UnlockedWrites, UnlockPoints: sc.UnlockPoints || forceUnlock, MapRaces: sc.MapRaces || (forceMapRaces && sc.MaxSteps <= 500000)} // (vector clocks grow with the number of threads: never on the long histories)
 	if sc.MapOrder {
 		vs.MapOrderChoices = true
 	}
@@ -175,6 +181,10 @@ func runOne(sc *Scenario, prefix []int, trace bool) *ExecReport {
 		rep.EngineEr = fmt.Sprintf("replay divergence: the execution ended after %d choice points, the prefix has %d", len(res.Points), len(prefix))
 	}
 	for _, p := range res.Panics {
+		if strings.HasPrefix(p.Func, "concurrent-map-access/") {
+			x.Fail("fatal/"+p.Func, "%s", p.Value)
+			continue
+		}
 		x.Fail("panic/"+shortFunc(p.Func)+"/"+panicClass(p.Value), "panic in thread %d (%s): %s\n%s", p.Thread, p.Name, p.Value, trimStack(p.Stack))
 	}
 	if len(res.Threads) > 0 && res.Threads[0].State != "done" && len(res.Panics) == 0 && !res.Aborted && res.Err == "" {
@@ -192,7 +202,7 @@ func runOne(sc *Scenario, prefix []int, trace bool) *ExecReport {
 	if len(sc.OnlyKeys) > 0 {
 		rep.Viol = nil
 		for _, v := range x.viol {
-			for _, p := range sc.OnlyKeys {
+			for _, p := range append([]string{"fatal/"}, sc.OnlyKeys...) {
 				if strings.HasPrefix(v.Key, p) {
 					rep.Viol = append(rep.Viol, v)
 					break
